@@ -282,7 +282,7 @@ Definition x86_masked_get : ctx_table :=
      ct_sp_name := ct_sp_name ctx_x86; ct_ip_name := ct_ip_name ctx_x86;
      ct_sp_acc := ct_sp_acc ctx_x86; ct_ip_acc := ct_ip_acc ctx_x86;
      ct_md_get := ct_md_get ctx_x86; ct_md_valid := ct_md_valid ctx_x86; ct_md_filter := ct_md_filter ctx_x86;
-     ct_iter_all := ct_iter_all ctx_x86; ct_iter_some := ct_iter_some ctx_x86; ct_next_slice := ct_next_slice ctx_x86; ct_next_set := ct_next_set ctx_x86;
+     ct_iter_all := ct_iter_all ctx_x86; ct_iter_some := ct_iter_some ctx_x86; ct_regs_direct := ct_regs_direct ctx_x86; ct_next_slice := ct_next_slice ctx_x86; ct_next_set := ct_next_set ctx_x86;
      ct_next_val := ct_next_val ctx_x86; ct_md_regs_val := ct_md_regs_val ctx_x86; ct_md_size := ct_md_size ctx_x86; ct_md_fmt := ct_md_fmt ctx_x86;
      ct_fields := ct_fields ctx_x86; ct_gpr := ct_gpr ctx_x86 |}.
 Theorem c18_masked_read_rejected :
@@ -308,7 +308,7 @@ Definition x86_loose_validity : ctx_table :=
      ct_sp_name := ct_sp_name ctx_x86; ct_ip_name := ct_ip_name ctx_x86;
      ct_sp_acc := ct_sp_acc ctx_x86; ct_ip_acc := ct_ip_acc ctx_x86;
      ct_md_get := ct_md_get ctx_x86; ct_md_valid := ct_md_valid ctx_x86; ct_md_filter := ct_md_filter ctx_x86;
-     ct_iter_all := ct_iter_all ctx_x86; ct_iter_some := ct_iter_some ctx_x86; ct_next_slice := ct_next_slice ctx_x86; ct_next_set := ct_next_set ctx_x86;
+     ct_iter_all := ct_iter_all ctx_x86; ct_iter_some := ct_iter_some ctx_x86; ct_regs_direct := ct_regs_direct ctx_x86; ct_next_slice := ct_next_slice ctx_x86; ct_next_set := ct_next_set ctx_x86;
      ct_next_val := ct_next_val ctx_x86; ct_md_regs_val := ct_md_regs_val ctx_x86; ct_md_size := ct_md_size ctx_x86; ct_md_fmt := ct_md_fmt ctx_x86;
      ct_fields := ct_fields ctx_x86; ct_gpr := ct_gpr ctx_x86 |}.
 Theorem c18_loose_validity_rejected :
@@ -333,7 +333,7 @@ Definition amd64_nocase : ctx_table :=
      ct_sp_name := ct_sp_name ctx_amd64; ct_ip_name := ct_ip_name ctx_amd64;
      ct_sp_acc := ct_sp_acc ctx_amd64; ct_ip_acc := ct_ip_acc ctx_amd64;
      ct_md_get := ct_md_get ctx_amd64; ct_md_valid := ct_md_valid ctx_amd64; ct_md_filter := ct_md_filter ctx_amd64;
-     ct_iter_all := ct_iter_all ctx_amd64; ct_iter_some := ct_iter_some ctx_amd64; ct_next_slice := ct_next_slice ctx_amd64; ct_next_set := ct_next_set ctx_amd64;
+     ct_iter_all := ct_iter_all ctx_amd64; ct_iter_some := ct_iter_some ctx_amd64; ct_regs_direct := ct_regs_direct ctx_amd64; ct_next_slice := ct_next_slice ctx_amd64; ct_next_set := ct_next_set ctx_amd64;
      ct_next_val := ct_next_val ctx_amd64; ct_md_regs_val := ct_md_regs_val ctx_amd64; ct_md_size := ct_md_size ctx_amd64; ct_md_fmt := ct_md_fmt ctx_amd64;
      ct_fields := ct_fields ctx_amd64; ct_gpr := ct_gpr ctx_amd64 |}.
 Theorem c18_case_insensitive_memoize_rejected :
@@ -407,7 +407,7 @@ Definition arm_thumb_masked : ctx_table :=
                     (AIf (BNe (AAnd (ALoc l_arm_cpsr) (ALit 32)) (ALit 0))
                          (AAnd (AVar n_pc) (ANot (ALit 1) 64)) (AVar n_pc));
      ct_md_get := ct_md_get ctx_arm; ct_md_valid := ct_md_valid ctx_arm; ct_md_filter := ct_md_filter ctx_arm;
-     ct_iter_all := ct_iter_all ctx_arm; ct_iter_some := ct_iter_some ctx_arm; ct_next_slice := ct_next_slice ctx_arm; ct_next_set := ct_next_set ctx_arm;
+     ct_iter_all := ct_iter_all ctx_arm; ct_iter_some := ct_iter_some ctx_arm; ct_regs_direct := ct_regs_direct ctx_arm; ct_next_slice := ct_next_slice ctx_arm; ct_next_set := ct_next_set ctx_arm;
      ct_next_val := ct_next_val ctx_arm; ct_md_regs_val := ct_md_regs_val ctx_arm; ct_md_size := ct_md_size ctx_arm; ct_md_fmt := ct_md_fmt ctx_arm;
      ct_fields := ct_fields ctx_arm; ct_gpr := ct_gpr ctx_arm |}.
 Theorem c18_masked_accessor_rejected :
@@ -501,8 +501,9 @@ Proof.
   split; [exact (cpu_iter_init_eq c F)|].
   split; [intro v; rewrite (cpu_valid_registers_mapM c F rf v), (cpu_iter_init_eq c F); destruct v; reflexivity|].
   split; [exact (cpu_iter_step c F rf)|]. split; [exact (cpu_iter_next_nil c rf)|].
-  destruct (enumerations c F rf) as [_ [_ [E _]]]. split; [|exact E].
-  unfold cpu_valid_registers in E. rewrite (cpu_iter_init_eq c F) in *. exact E.
+  destruct (enumerations c F rf) as [_ [_ [E _]]]. split.
+  - unfold cpu_valid_registers in E. rewrite (cpu_iter_init_eq c F) in *. exact E.
+  - rewrite (cpu_registers_eq c F rf), <- (cpu_valid_registers_mapM c F rf VAll). exact E.
 Qed.
 Print Assumptions c18_register_iterator.
 
@@ -544,7 +545,7 @@ Definition x86_iter (some : names_src) (skip : Z) : ctx_table :=
      ct_sp_name := ct_sp_name ctx_x86; ct_ip_name := ct_ip_name ctx_x86;
      ct_sp_acc := ct_sp_acc ctx_x86; ct_ip_acc := ct_ip_acc ctx_x86;
      ct_md_get := ct_md_get ctx_x86; ct_md_valid := ct_md_valid ctx_x86; ct_md_filter := ct_md_filter ctx_x86;
-     ct_iter_all := ct_iter_all ctx_x86; ct_iter_some := some; ct_next_slice := skip; ct_next_set := ct_next_set ctx_x86;
+     ct_iter_all := ct_iter_all ctx_x86; ct_iter_some := some; ct_regs_direct := ct_regs_direct ctx_x86; ct_next_slice := skip; ct_next_set := ct_next_set ctx_x86;
      ct_next_val := ct_next_val ctx_x86; ct_md_regs_val := ct_md_regs_val ctx_x86; ct_md_size := ct_md_size ctx_x86; ct_md_fmt := ct_md_fmt ctx_x86;
      ct_fields := ct_fields ctx_x86; ct_gpr := ct_gpr ctx_x86 |}.
 Theorem c18_loose_enumeration_rejected :
@@ -691,7 +692,7 @@ Definition sparc_before_fix : ctx_table :=
      ct_valid_all := ct_valid_all ctx_sparc; ct_valid_default := ct_valid_default ctx_sparc; ct_get_cond := ct_get_cond ctx_sparc; ct_get_val := ct_get_val ctx_sparc; ct_md_get_val := ct_md_get_val ctx_sparc;
      ct_fmt_prefix := ct_fmt_prefix ctx_sparc; ct_fmt_zero := ct_fmt_zero ctx_sparc; ct_fmt_mul := ct_fmt_mul ctx_sparc;
      ct_sp_name := ct_sp_name ctx_sparc; ct_ip_name := ct_ip_name ctx_sparc;
-     ct_sp_acc := ct_sp_acc ctx_sparc; ct_ip_acc := ct_ip_acc ctx_sparc; ct_iter_all := ct_iter_all ctx_sparc; ct_iter_some := ct_iter_some ctx_sparc; ct_next_slice := ct_next_slice ctx_sparc; ct_next_set := ct_next_set ctx_sparc;
+     ct_sp_acc := ct_sp_acc ctx_sparc; ct_ip_acc := ct_ip_acc ctx_sparc; ct_iter_all := ct_iter_all ctx_sparc; ct_iter_some := ct_iter_some ctx_sparc; ct_regs_direct := ct_regs_direct ctx_sparc; ct_next_slice := ct_next_slice ctx_sparc; ct_next_set := ct_next_set ctx_sparc;
      ct_next_val := ct_next_val ctx_sparc; ct_md_regs_val := ct_md_regs_val ctx_sparc; ct_md_size := ct_md_size ctx_sparc; ct_md_fmt := ct_md_fmt ctx_sparc;
      ct_fields := ct_fields ctx_sparc;
      ct_md_get := ct_md_get ctx_sparc; ct_md_valid := ct_md_valid ctx_sparc; ct_md_filter := ct_md_filter ctx_sparc;
